@@ -179,6 +179,14 @@ func runCheck(id, tier string, o runOpts) int {
 				exit = 2
 			}
 		}
+		sres, sok := runSeeds(id, o)
+		mres = append(mres, sres...)
+		if !sok {
+			fmt.Fprintln(os.Stderr, "zrcheck: seeded-change self-test failed: a seeded change recorded as detected by this check was not detected")
+			if exit == 0 {
+				exit = 2
+			}
+		}
 	}
 	wall := time.Since(t0).Seconds()
 	if o.verbose {
